@@ -473,6 +473,74 @@ fn corruption_body(c: &Corruption, ctx: &mut CaseCtx) -> PropResult {
 }
 
 // ---------------------------------------------------------------------------
+// a database written out and loaded again (what regenerating database.msgpack / database.json does)
+
+fn same_database(a: &ReflectionDatabase, b: &ReflectionDatabase) -> Result<(), String> {
+    if a.classes.len() != b.classes.len() {
+        return Err(format!("{} classes became {}", a.classes.len(), b.classes.len()));
+    }
+    for (name, ca) in &a.classes {
+        let Some(cb) = b.classes.get(name) else { return Err(format!("class {name} is gone")) };
+        if ca.superclass != cb.superclass || ca.name != cb.name {
+            return Err(format!("class {name}: name / superclass changed"));
+        }
+        if format!("{:?}", { let mut t: Vec<_> = ca.tags.iter().map(|t| format!("{t:?}")).collect(); t.sort(); t }) != format!("{:?}", { let mut t: Vec<_> = cb.tags.iter().map(|t| format!("{t:?}")).collect(); t.sort(); t }) {
+            return Err(format!("class {name}: tags changed"));
+        }
+        if ca.properties.len() != cb.properties.len() {
+            let lost: Vec<&str> = ca.properties.keys().filter(|k| !cb.properties.contains_key(*k)).map(|k| k.as_ref()).take(5).collect();
+            return Err(format!("class {name}: {} property descriptors became {} (lost: {:?})", ca.properties.len(), cb.properties.len(), lost));
+        }
+        for (pn, pa) in &ca.properties {
+            let Some(pb) = cb.properties.get(pn) else { return Err(format!("{name}.{pn} is gone")) };
+            let show = |p: &rbx_reflection::PropertyDescriptor| {
+                let mut tags: Vec<String> = p.tags.iter().map(|t| format!("{t:?}")).collect();
+                tags.sort();
+                format!("{} {:?} {:?} {:?} {:?}", p.name, p.scriptability, p.data_type, p.kind, tags)
+            };
+            if show(pa) != show(pb) {
+                return Err(format!("{name}.{pn}: {} became {}", show(pa), show(pb)));
+            }
+        }
+        if ca.default_properties.len() != cb.default_properties.len() {
+            return Err(format!("class {name}: {} defaults became {}", ca.default_properties.len(), cb.default_properties.len()));
+        }
+        for (dn, da) in &ca.default_properties {
+            let Some(dbv) = cb.default_properties.get(dn) else { return Err(format!("default {name}.{dn} is gone")) };
+            if GVal::from_variant(da, &|_| GRef::None) != GVal::from_variant(dbv, &|_| GRef::None) {
+                return Err(format!("default {name}.{dn}: {da:?} became {dbv:?}"));
+            }
+        }
+    }
+    if a.enums.len() != b.enums.len() {
+        return Err(format!("{} enums became {}", a.enums.len(), b.enums.len()));
+    }
+    for (en, ea) in &a.enums {
+        let Some(eb) = b.enums.get(en) else { return Err(format!("enum {en} is gone")) };
+        if ea.items.len() != eb.items.len() || ea.items.iter().any(|(k, v)| eb.items.get(k) != Some(v)) {
+            return Err(format!("enum {en}: items changed"));
+        }
+    }
+    Ok(())
+}
+
+fn reserialize(db: &ReflectionDatabase<'static>) -> Result<(), Fail> {
+    // MessagePack as rbx_reflector writes it (named fields), compact MessagePack, and JSON
+    let named = no_panic("rmp_serde::to_vec_named(database)", || rmp_serde::to_vec_named(db))?.map_err(|e| Fail::new("db:reserialize:msgpack-write", e.to_string()))?;
+    let back: ReflectionDatabase<'static> = no_panic("rmp_serde::from_slice(database)", || rmp_serde::from_slice(&named))?.map_err(|e| Fail::new("db:reserialize:msgpack-read", e.to_string()))?;
+    same_database(db, &back).map_err(|e| Fail::new("db:reserialize:msgpack", format!("database written as MessagePack and read back: {e}")))?;
+    // JSON has no non-finite numbers: the JSON round trip is made without the defaults that hold one
+    let mut a = db.clone();
+    for c in a.classes.values_mut() {
+        c.default_properties.retain(|_, v| !GVal::from_variant(v, &|_| GRef::None).has_nonfinite());
+    }
+    let json = no_panic("serde_json::to_vec(database)", || serde_json::to_vec(&a))?.map_err(|e| Fail::new("db:reserialize:json-write", e.to_string()))?;
+    let back: ReflectionDatabase<'static> = no_panic("serde_json::from_slice(database)", || serde_json::from_slice(&json))?.map_err(|e| Fail::new("db:reserialize:json-read", e.to_string()))?;
+    same_database(&a, &back).map_err(|e| Fail::new("db:reserialize:json", format!("database written as JSON and read back: {e}")))?;
+    Ok(())
+}
+
+// ---------------------------------------------------------------------------
 // the database's own lookup API against an independent walk
 
 #[derive(Clone, Debug, Serialize, Deserialize)]
@@ -694,6 +762,8 @@ fn gen_db_body(g: &GenDb, ctx: &mut CaseCtx) -> PropResult {
     // the generator's output is coherent: the coherence walk must agree (guards the generator itself)
     let problems = coherence(&b.db);
     ensure!(problems.is_empty(), "harness:generated-db-incoherent", "{:?}", problems.iter().take(3).collect::<Vec<_>>());
+    // (0) written out and read back, it is the same database
+    reserialize(&b.db)?;
     // (a) lookup API
     let names: Vec<String> = (0..n).map(|i| format!("K{i}")).collect();
     for name in &names {
@@ -848,6 +918,20 @@ pub fn run(ctx: &Ctx) -> PropertyReport {
             }
         }
         rep.push(ctx.run_list("lookups", cases, true, lookup_body));
+    }
+    if sub.runs("reserialize") {
+        let start = std::time::Instant::now();
+        let mut r = SubReport::new("reserialize");
+        r.exhaustive = true;
+        r.evaluations = (db.classes.len() + db.enums.len()) as u64;
+        r.distinct_nontrivial = r.evaluations;
+        r.notes.push("the bundled database is written out as MessagePack (named fields, as rbx_reflector does) and as JSON, read back, and compared class by class, descriptor by descriptor, default by default, enum by enum".into());
+        if let Err(f) = reserialize(db) {
+            let replay = crate::engine::write_replay("C16", "reserialize", &serde_json::json!({}), &f.key, &f.msg);
+            r.failures.push(crate::engine::Failure { key: f.key, msg: f.msg, replay: Some(replay) });
+        }
+        r.wall_s = start.elapsed().as_secs_f64();
+        rep.push(r);
     }
     if sub.runs("api-walk") {
         let cases: Vec<ApiCase> = if ctx.cfg.replay.is_some() { vec![] } else { dbview::all_class_names().into_iter().map(|class| ApiCase { class }).collect() };
